@@ -1482,6 +1482,190 @@ def check_token_access(ck, facts):
                    "returns no token for an empty string), the access is undefined behaviour instead of a refusal" % (var, what, line, need, lb)), f.file, line)
 
 
+# -------------------------------------------------------------------------------------------------
+# parsed quantities are not narrowed before they are range-checked (E7.parsed-narrowing)
+# -------------------------------------------------------------------------------------------------
+INT_MAX = {"bool": 1, "char": 127, "signed char": 127, "unsigned char": 255, "short": 2 ** 15 - 1, "unsigned short": 2 ** 16 - 1,
+           "int": 2 ** 31 - 1, "unsigned int": 2 ** 32 - 1, "unsigned": 2 ** 32 - 1, "long": 2 ** 63 - 1, "unsigned long": 2 ** 64 - 1,
+           "long long": 2 ** 63 - 1, "unsigned long long": 2 ** 64 - 1, "FEAT::Index": 2 ** 64 - 1, "Index": 2 ** 64 - 1,
+           "std::size_t": 2 ** 64 - 1, "size_t": 2 ** 64 - 1, "std::uint64_t": 2 ** 64 - 1, "std::uint32_t": 2 ** 32 - 1,
+           "std::int64_t": 2 ** 63 - 1, "std::int32_t": 2 ** 31 - 1}
+
+
+def int_max(ty):
+    t = re.sub(r"\bconst\b|&", "", ty or "").replace(" int", "" if (ty or "").strip() not in ("int", "const int", "unsigned int") else " int").strip()
+    t = re.sub(r"\s+", " ", t)
+    if t in INT_MAX:
+        return INT_MAX[t]
+    t2 = re.sub(r"\s+", " ", re.sub(r"\bconst\b|&", "", ty or "")).strip()
+    return INT_MAX.get(t2, INT_MAX.get(t2.replace(" int", "")))
+
+
+def _strip_casts_all(n):
+    while n is not None and n.get("k") == "Cast":
+        n = n["e"]
+    return n
+
+
+def _const_of(n):
+    n = _strip_casts_all(n)
+    while n is not None and n.get("k") in ("Construct", "TempObj") and len(n.get("a", [])) == 1:
+        n = _strip_casts_all(n["a"][0])
+    if n is None:
+        return None
+    if n.get("k") == "Int":
+        return int(n["v"])
+    if n.get("k") == "Ref" and "v" in n:
+        return int(n["v"])
+    return None
+
+
+def _upper_bounds(c, d, pol):
+    """upper bounds K such that (c has truth value pol) implies variable d <= K"""
+    c = _strip_casts_all(c)
+    if c is None:
+        return []
+    if c.get("k") == "Un" and c.get("op") == "!":
+        return _upper_bounds(c["e"], d, not pol)
+    if c.get("k") == "Bin" and c.get("op") in ("&&", "||"):
+        if (c["op"] == "&&") == pol:          # both operands have truth value pol
+            return _upper_bounds(c["lhs"], d, pol) + _upper_bounds(c["rhs"], d, pol)
+        return []
+    if c.get("k") == "Bin" and c.get("op") in ("<", "<=", ">", ">=", "=="):
+        flip = {"<": ">", ">": "<", "<=": ">=", ">=": "<=", "==": "=="}
+        neg = {"<": ">=", ">": "<=", "<=": ">", ">=": "<", "==": "!="}
+        for a, b, op in ((c["lhs"], c["rhs"], c["op"]), (c["rhs"], c["lhs"], flip[c["op"]])):
+            a = _strip_casts_all(a)
+            k = _const_of(b)
+            if a is not None and a.get("k") == "Ref" and a.get("d") == d and k is not None and not (_strip_casts_all(c["lhs"]) is not a and _strip_casts_all(c["rhs"]) is not a):
+                o = op if pol else neg[op]
+                if o == "<=" or o == "==":
+                    return [k]
+                if o == "<":
+                    return [k - 1]
+    return []
+
+
+def _exits14(st):
+    if st is None:
+        return False
+    if st.get("k") in ("Return", "Throw"):
+        return True
+    if st.get("k") == "Block":
+        return any(_exits14(x) for x in st.get("s", []))
+    return featlib.is_call(st) and bool(st.get("noreturn"))
+
+
+def _bound_at(fn, d, use):
+    """least upper bound on variable d established on every path to node `use` (conditions of enclosing ifs and of earlier early-outs)"""
+    best = []
+
+    def find(n, acc):
+        if n is use:
+            return acc
+        for key_, c in ((k_, v_) for k_, v_ in n.items() if isinstance(v_, (dict, list))):
+            items = c if isinstance(c, list) else [c]
+            for idx, ch in enumerate(items):
+                if not (isinstance(ch, dict) and "k" in ch):
+                    continue
+                extra = []
+                if n.get("k") == "If" and key_ in ("then", "else"):
+                    extra = _upper_bounds(n["c"], d, key_ == "then")
+                if n.get("k") == "Block" and key_ == "s":
+                    for prev in items[:idx]:
+                        if isinstance(prev, dict) and prev.get("k") == "If":
+                            if _exits14(prev.get("then")) and not _exits14(prev.get("else")):
+                                extra += _upper_bounds(prev["c"], d, False)
+                            elif prev.get("else") is not None and _exits14(prev.get("else")) and not _exits14(prev.get("then")):
+                                extra += _upper_bounds(prev["c"], d, True)
+                if n.get("k") == "Bin" and n.get("op") in ("&&", "||") and key_ == "rhs":
+                    extra = _upper_bounds(n["lhs"], d, n["op"] == "&&")
+                if n.get("k") == "Cond" and key_ in ("then", "else"):
+                    extra = _upper_bounds(n["c"], d, key_ == "then")
+                r = find(ch, acc + extra)
+                if r is not None:
+                    return r
+        return None
+    r = find(fn.body, [])
+    return min(r) if r else None
+
+
+def _narrowings(facts_fns, fn, d, src_max, depth, seen):
+    """uses of the variable d (holding a parsed quantity of type maximum src_max) that convert it to a narrower integer type
+    without an established bound: -> [(fn, node, target type, bound)]; the value is followed into same-width copies and callee parameters"""
+    out = []
+    if (fn.full, d) in seen or depth > 3:
+        return out
+    seen.add((fn.full, d))
+
+    def judge(node, ty):
+        m = int_max(ty)
+        if m is not None and m < src_max:
+            b = _bound_at(fn, d, node)
+            if b is None or b > m:
+                out.append((fn, node, ty, b))
+            return True
+        return False
+    for x in fn.nodes():
+        k = x.get("k")
+        if k == "Cast" and _strip_casts_all(x).get("k") == "Ref" and _strip_casts_all(x).get("d") == d and x.get("e", {}).get("k") != "Cast":
+            judge(x, x.get("to") or "")
+        if k == "Var" and not x.get("ref") and x.get("init") is not None:
+            i0 = _strip_casts_all(x["init"])
+            while i0 is not None and i0.get("k") in ("Construct", "TempObj") and len(i0.get("a", [])) == 1:
+                i0 = _strip_casts_all(i0["a"][0])
+            if i0 is not None and i0.get("k") == "Ref" and i0.get("d") == d and x["d"] != d:
+                if not judge(x, fn.type(x["t"])) and int_max(fn.type(x["t"])) is not None:
+                    out.extend(_narrowings(facts_fns, fn, x["d"], min(src_max, int_max(fn.type(x["t"]))), depth, seen))
+        if featlib.is_call(x) and k != "OpCall":
+            pts = [fn.type(t) for t in x.get("pt", [])]
+            for i, a in enumerate(x.get("a", [])):
+                if a.get("k") == "Ref" and a.get("d") == d and i < len(pts):      # explicit casts are judged above
+                    pt = pts[i]
+                    if pt.rstrip().endswith("&") and not pt.lstrip().startswith("const "):
+                        continue            # the out-parameter of parse itself
+                    if not judge(a, pt) and int_max(pt) is not None:
+                        t = facts_fns.get(x.get("cdecl"))
+                        if t is not None and i < len(t.params):
+                            out.extend(_narrowings(facts_fns, t, t.params[i]["d"], min(src_max, int_max(pt)), depth + 1, seen))
+    return out
+
+
+def check_parsed_narrowing(ck, facts):
+    RULE = "E7.parsed-narrowing"
+    by_decl = {f.d.get("decl"): f for f in facts.functions if f.tk != "pattern" and f.body is not None and f.d.get("decl") is not None}
+    seen_keys = {}
+    for f in facts.functions:
+        if f.tk == "pattern" or "/kernel/cubature/" not in f.file:
+            continue
+        for n in f.nodes():
+            if not (n.get("k") == "MCall" and n.get("n") == "parse" and n.get("callee", "").endswith("String::parse") and n.get("a")):
+                continue
+            a = n["a"][0]
+            ty = f.ntype(a)
+            m = int_max(ty)
+            if m is None or a.get("k") != "Ref":
+                continue          # only integer quantities parsed into a named variable
+            key = "%s::%s/%s" % (strip_targs(f.cls), f.name, featlib.render(a))
+            bad = _narrowings(by_decl, f, a["d"], m, 0, set())
+            ok = not bad
+            if seen_keys.get(key) == ok:
+                continue
+            seen_keys[key] = ok
+            if bad:
+                g, node, tgt, b = bad[0]
+                detail = ("the parsed %s `%s` is converted to %s at %s:%s `%s` %s: a value that does not fit wraps around BEFORE any range check sees it, so an out-of-range parameter "
+                          "(e.g. 2^32 + n) is answered with the rule for n instead of being refused" % (
+                              ty, featlib.render(a), tgt, rel(g.file), node.get("l"), featlib.render(node)[:60],
+                              "without a bound on the value" if b is None else "although only `<= %d` is established" % b))
+                # the finding is identified by the place of the conversion, not only by the parsed variable
+                gcls = g.cls if g.tk != "inst" else strip_targs(g.cls)       # members of explicit specialisations are source functions of their own
+                vkey = "%s@%s::%s/%s" % (key, re.sub(r"FEAT::(Cubature::|Shape::)?(Intern::)?", "", gcls), g.name, re.sub(r"\s+", " ", tgt).strip())
+                ck.ob(RULE, vkey, False, detail, g.file, node.get("l"))
+            else:
+                ck.ob(RULE, key, True, "the parsed %s reaches its consumers (followed into same-width copies and callee parameters) without an unchecked narrowing conversion" % ty, f.file, n.get("l"))
+
+
 def run(tier):
     ck = Check("C14", tier)
     ck.rule("E9.extract", "every (factory, n) entry point of the cubature layer folds to a complete constant table: the rule is created with count(n) points, every point index receives exactly one weight and dim coordinates, none outside the table", 100)
@@ -1504,6 +1688,9 @@ def run(tier):
     ck.rule("E7.token-access", "name-parsing code of kernel/cubature: every front()/back()/pop_front()/pop_back()/[k]/at(k) on a token container (std::deque/vector of "
             "String, e.g. the result of String::split_by_string) happens where the container is known to hold enough elements on every path (size()/empty() tests by polarity, "
             "pops and pushes counted) - a malformed name (':' , 'auto-degree::3': an empty token splits into no tokens) must be refused, not run into undefined behaviour", 6)
+    ck.rule("E7.parsed-narrowing", "every integer quantity of a rule name read with String::parse (point count, refine count, degree) reaches its range check with the width it was parsed "
+            "with: a conversion to a narrower integer type (explicit cast, narrower parameter or local; followed into same-width copies and callee parameters) is preceded on every path by a "
+            "check that the value fits - otherwise '<driver>:4294967298' is range-checked as 2 and answered with another rule instead of being refused", 4)
     ck.rule("E7.param-fully-parsed", "every numeric name parameter (point count, refine count, degree) read with String::parse - a prefix parse - is "
             "accepted only if the whole parameter string was validated (digits only), so a malformed name is refused instead of answered with another rule", 4)
 
@@ -1981,6 +2168,9 @@ def run(tier):
 
     # ---- token containers are only accessed where they hold enough tokens
     check_token_access(ck, facts)
+
+    # ---- parsed quantities are not narrowed before their range check
+    check_parsed_narrowing(ck, facts)
 
     # ---- numeric name parameters are validated as a whole --------------------------------------------------
     check_param_fully_parsed(ck, facts)
